@@ -991,7 +991,11 @@ verdict_t run_and_check(const ucase_t& c, const std::vector<std::vector<double>>
     nano::solver_state_t state;
     try
     {
-        state = solver->minimize(function, x0, logger);
+        // half of the cases run a COPY of the configured object (as ml::params_t and per-thread copies do); derived from generated data, so that old replay files keep their meaning
+        const bool via_clone = (static_cast<long long>(std::floor(std::fabs(x0(0)) * 1e6)) % 2) == 1;
+        ctx.label_if(via_clone, "solver-used-through-clone");
+        const auto cloned = via_clone ? solver->clone() : nano::rsolver_t{};
+        state             = (via_clone ? *cloned : *solver).minimize(function, x0, logger);
     }
     catch (const runaway_t&)
     {
